@@ -3,6 +3,7 @@ import Driver.Tbl
 import Driver.Parse
 import Driver.W2X
 import Driver.EncX
+import Driver.EncW
 import Driver.X2T
 open Driver
 
@@ -12,8 +13,10 @@ def dispatch (line : String) : String :=
   | [] => ""
   | "TBL" :: rest => tbl rest
   | "PARSE" :: rest => parseVerb rest
+  | "PLEN" :: rest => plenVerb rest
   | "W2X" :: rest => w2xVerb rest
   | "ENCX" :: rest => encxVerb rest
+  | "ENCW" :: rest => encwVerb rest
   | "W2T" :: rest => w2tVerb rest
   | "T2T" :: rest => t2tVerb rest
   | "X2T" :: rest => x2tVerb rest
